@@ -376,6 +376,10 @@ plain_set!(S34, S34ClientAccounts { a: NSg<Sg> });
 plain_set!(S35, S35ClientAccounts { a: AccountInfo, b: NMu<Mu> });
 plain_set!(S36, S36ClientAccounts { a: Mut<NSg<Sg>>, b: NMu<Signer<Mu>>, c: Signer<NMu<Mu>> });
 plain_set!(S37, S37ClientAccounts { o: Option<NSg<Sg>>, v: [NMu<Mut<Sg>>; 2], r: Rest<NSg<Signer<Mu>>> });
+// a `Box` BETWEEN single-account modifiers (transparent: the stack's meta is the union of its flags)
+plain_set!(S38, S38ClientAccounts { a: Mut<Box<Sg>>, b: Signer<Box<Mu>>, c: Box<Mut<Box<Sg>>>, d: Mut<Box<Box<Signer<Mu>>>>, e: NSg<Box<Sg>>, f: Signer<Box<AccountInfo>> });
+plain_set!(S39, S39ClientAccounts { o: Option<Mut<Box<Sg>>>, v: [Signer<Box<Mu>>; 2], p: Mut<Box<Program<System>>>, r: Rest<Mut<Box<Signer<Box<AccountInfo>>>>> });
+plain_set!(S40, S40ClientAccounts { a: Signer<Box<Mut<Box<Sg>>>>, o: Option<Box<Signer<Box<Mu>>>> });
 
 args_set!(V01, V01ClientAccounts, V01Arg { v: Vec<AccountInfo> => (usize, ()) });
 args_set!(V02, V02ClientAccounts, V02Arg { a: Sg => (), v: Vec<Mut<Sg>> => (usize, ()), z: AccountInfo => () });
@@ -396,7 +400,7 @@ registry! {
     (S13, IxS13, ()), (S14, IxS14, ()), (S15, IxS15, ()), (S16, IxS16, ()), (S17, IxS17, ()), (S18, IxS18, ()),
     (S19, IxS19, ()), (S20, IxS20, ()), (S21, IxS21, ()), (S22, IxS22, ()), (S23, IxS23, ()), (S24, IxS24, ()),
     (S25, IxS25, ()), (S26, IxS26, ()), (S27, IxS27, ()), (S28, IxS28, ()), (S29, IxS29, ()), (S30, IxS30, ()),
-    (S31, IxS31, ()), (S32, IxS32, ()), (S33, IxS33, ()), (S34, IxS34, ()), (S35, IxS35, ()), (S36, IxS36, ()), (S37, IxS37, ()),
+    (S31, IxS31, ()), (S32, IxS32, ()), (S33, IxS33, ()), (S34, IxS34, ()), (S35, IxS35, ()), (S36, IxS36, ()), (S37, IxS37, ()), (S38, IxS38, ()), (S39, IxS39, ()), (S40, IxS40, ()),
     (V01, IxV01, V01Arg), (V02, IxV02, V02Arg), (V03, IxV03, V03Arg), (V04, IxV04, V04Arg), (V05, IxV05, V05Arg),
     (V06, IxV06, V06Arg), (V07, IxV07, V07Arg), (V08, IxV08, V08Arg), (V09, IxV09, V09Arg), (V10, IxV10, V10Arg),
     (V11, IxV11, V11Arg), (V12, IxV12, V12Arg),
